@@ -23,6 +23,7 @@ structure Core (s : St) : Prop where
   fr  : ∀ b t, s.pc t = .fSt b → s.loc b = .freeing t
   ul  : ∀ b t, s.pc t = .rUnlock b → s.inUse b ≠ 0
   nl  : ∀ t, (s.pc t = .rLock ∨ s.pc t = .rYield) → s.locked = true
+  pf  : ∀ b, s.loc b = .pool → s.inUse b = 0
 
 def Legal (s : St) : Prop := s.g.illegal = 0 ∧ s.misuse = 0
 
@@ -50,38 +51,38 @@ theorem step_inv_a {s s' : St} {tok : Tok} {ev : List String} (inv : Inv s)
   · -- rLock
     split at hs <;>
     (injection hs with hs; injection hs with hs _; subst hs
-     obtain ⟨c1,c2,c3,c4,c5,c5',c6,c7,c8,c9,c10,c11⟩ := inv hl'
+     obtain ⟨c1,c2,c3,c4,c5,c5',c6,c7,c8,c9,c10,c11,c12⟩ := inv hl'
      constructor <;> grind [inAlloc, upd])
   · -- rYield
     injection hs with hs; injection hs with hs _; subst hs
-    obtain ⟨c1,c2,c3,c4,c5,c5',c6,c7,c8,c9,c10,c11⟩ := inv hl'
+    obtain ⟨c1,c2,c3,c4,c5,c5',c6,c7,c8,c9,c10,c11,c12⟩ := inv hl'
     constructor <;> grind [inAlloc, upd]
   · -- r1
     injection hs with hs; injection hs with hs _; subst hs
-    obtain ⟨c1,c2,c3,c4,c5,c5',c6,c7,c8,c9,c10,c11⟩ := inv hl'
+    obtain ⟨c1,c2,c3,c4,c5,c5',c6,c7,c8,c9,c10,c11,c12⟩ := inv hl'
     constructor <;> grind [inAlloc, upd]
   · -- r2
     injection hs with hs; injection hs with hs _; subst hs
-    obtain ⟨c1,c2,c3,c4,c5,c5',c6,c7,c8,c9,c10,c11⟩ := inv hl'
+    obtain ⟨c1,c2,c3,c4,c5,c5',c6,c7,c8,c9,c10,c11,c12⟩ := inv hl'
     constructor <;> grind [inAlloc, upd]
   · -- w1
     injection hs with hs; injection hs with hs _; subst hs
-    obtain ⟨c1,c2,c3,c4,c5,c5',c6,c7,c8,c9,c10,c11⟩ := inv hl'
+    obtain ⟨c1,c2,c3,c4,c5,c5',c6,c7,c8,c9,c10,c11,c12⟩ := inv hl'
     constructor <;> grind [inAlloc, upd]
   · -- r3
     injection hs with hs; injection hs with hs _; subst hs
-    obtain ⟨c1,c2,c3,c4,c5,c5',c6,c7,c8,c9,c10,c11⟩ := inv hl'
+    obtain ⟨c1,c2,c3,c4,c5,c5',c6,c7,c8,c9,c10,c11,c12⟩ := inv hl'
     constructor <;> grind [inAlloc, upd]
   · -- w2
     injection hs with hs; injection hs with hs _; subst hs
-    obtain ⟨c1,c2,c3,c4,c5,c5',c6,c7,c8,c9,c10,c11⟩ := inv hl'
+    obtain ⟨c1,c2,c3,c4,c5,c5',c6,c7,c8,c9,c10,c11,c12⟩ := inv hl'
     constructor <;> grind [inAlloc, upd]
   · -- ld: a clear flag means the block is in the pool (nobody else is inside alloc)
     split at hs
     · simp at hs
     split at hs <;>
     (injection hs with hs; injection hs with hs _; subst hs
-     obtain ⟨c1,c2,c3,c4,c5,c5',c6,c7,c8,c9,c10,c11⟩ := inv hl'
+     obtain ⟨c1,c2,c3,c4,c5,c5',c6,c7,c8,c9,c10,c11,c12⟩ := inv hl'
      constructor <;> grind [inAlloc, upd])
 
 theorem finish_inv {s : St} {t b w : Nat} {iu : Nat → Nat} {evs : List String} (inv : Inv s)
@@ -95,7 +96,7 @@ theorem finish_inv {s : St} {t b w : Nat} {iu : Nat → Nat} {evs : List String}
     unfold Legal at hl' ⊢
     simp only [a3] at hl'
     exact hl'
-  obtain ⟨c1,c2,c3,c4,c5,c5',c6,c7,c8,c9,c10,c11⟩ := inv hl
+  obtain ⟨c1,c2,c3,c4,c5,c5',c6,c7,c8,c9,c10,c11,c12⟩ := inv hl
   have hloc := hloc hl
   have huse := huse hl
   have hpc := hpc hl
@@ -117,6 +118,7 @@ theorem finish_inv {s : St} {t b w : Nat} {iu : Nat → Nat} {evs : List String}
   · grind [upd]
   · grind [upd]
   · grind [upd]
+  · grind [upd]
 
 theorem step_inv_b {s s' : St} {tok : Tok} {ev : List String} (inv : Inv s)
     (hs : step s tok = some (s', ev)) (hpc : (∃ b, s.pc tok.tid = .wIn b) ∨ (∃ b, s.pc tok.tid = .rUnlock b) ∨ (∃ b, s.pc tok.tid = .fSt b)) : Inv s' := by
@@ -131,7 +133,7 @@ theorem step_inv_b {s s' : St} {tok : Tok} {ev : List String} (inv : Inv s)
     split at hs
     · intro hl'
       injection hs with hs; injection hs with hs _; subst hs
-      obtain ⟨c1,c2,c3,c4,c5,c5',c6,c7,c8,c9,c10,c11⟩ := inv hl'
+      obtain ⟨c1,c2,c3,c4,c5,c5',c6,c7,c8,c9,c10,c11,c12⟩ := inv hl'
       constructor <;> grind [inAlloc, upd]
     · injection hs with hs; have h1 := congrArg Prod.fst hs; simp only at h1; subst h1
       have := @finish_inv s tok.tid blk s.wlock (upd s.inUse blk 1) [s!"T{tok.tid} w in_use[{blk}] 1"] inv
@@ -149,7 +151,7 @@ theorem step_inv_b {s s' : St} {tok : Tok} {ev : List String} (inv : Inv s)
     rename_i b hpc'
     intro hl'
     injection hs with hs; injection hs with hs _; subst hs
-    obtain ⟨c1,c2,c3,c4,c5,c5',c6,c7,c8,c9,c10,c11⟩ := inv hl'
+    obtain ⟨c1,c2,c3,c4,c5,c5',c6,c7,c8,c9,c10,c11,c12⟩ := inv hl'
     obtain ⟨n1, n2, n3, n4, n5, n6⟩ := nextPc_not (s.prog tok.tid)
     constructor <;> grind [inAlloc, upd]
 theorem step_inv_idle {s s' : St} {tok : Tok} {ev : List String} (inv : Inv s)
@@ -171,7 +173,7 @@ theorem step_inv_idle {s s' : St} {tok : Tok} {ev : List String} (inv : Inv s)
     intro hl'
     have hl : Legal s := by
       unfold Legal at hl' ⊢; simp only [bi] at hl'; exact hl'
-    obtain ⟨c1,c2,c3,c4,c5,c5',c6,c7,c8,c9,c10,c11⟩ := inv hl
+    obtain ⟨c1,c2,c3,c4,c5,c5',c6,c7,c8,c9,c10,c11,c12⟩ := inv hl
     constructor <;> grind [inAlloc, upd]
   · -- allocation
     injection hs with hs; injection hs with hs _; subst hs
@@ -183,7 +185,7 @@ theorem step_inv_idle {s s' : St} {tok : Tok} {ev : List String} (inv : Inv s)
       · rename_i hc; exact ⟨⟨h1, h2⟩, by grind⟩
       · omega
     obtain ⟨hl, hat⟩ := hl
-    obtain ⟨c1,c2,c3,c4,c5,c5',c6,c7,c8,c9,c10,c11⟩ := inv hl
+    obtain ⟨c1,c2,c3,c4,c5,c5',c6,c7,c8,c9,c10,c11,c12⟩ := inv hl
     constructor <;> grind [inAlloc, upd]
   · -- free
     rename_i b hb
@@ -192,7 +194,7 @@ theorem step_inv_idle {s s' : St} {tok : Tok} {ev : List String} (inv : Inv s)
     obtain ⟨ho, hi0⟩ := freeBegin_legal hl'.1
     obtain ⟨f1, f2, f3, -, -⟩ := freeBegin_false_owned (g := (beginOp s.g tok.tid s.cap op).1) (t := tok.tid) ho
     have hl : Legal s := ⟨by rw [← bi]; exact hi0, hl'.2⟩
-    obtain ⟨c1,c2,c3,c4,c5,c5',c6,c7,c8,c9,c10,c11⟩ := inv hl
+    obtain ⟨c1,c2,c3,c4,c5,c5',c6,c7,c8,c9,c10,c11,c12⟩ := inv hl
     simp only [ho, if_true]
     constructor
     · simp only [f2, bd]; exact c1
